@@ -98,8 +98,9 @@ theorem step_mode {o : Oracle} {op : Nat} {s s' : St} {io io' : Io} {e : Ev}
 
 theorem slowStep_steps {o : Oracle} {op : Nat} {c0 : SState} {n total : Nat} {s s' : St} {io io' : Io} {c : Ctl}
     (hop : op ≤ 2) (hnf : ¬ fastMode s.params) (hP : SlowInv op c0 n total s io) (h : slowStep o op s io = .ok (s', io', c)) :
-    (c = .cont ∧ ∃ e, Step o op (s, io) e (s', io')) ∨
-    (c = .brk ∧ s' = s ∧ io' = io ∧ Step o op (s, io) (.tau 0) (checkFlushComplete s, io)) := by
+    (c = .cont ∧ ∃ e, e ≠ .tau 0 ∧ Step o op (s, io) e (s', io')) ∨
+    (c = .brk ∧ s' = s ∧ io' = io ∧ Step o op (s, io) (.tau 0) (checkFlushComplete s, io)
+      ∧ (op ≠ 0 → ¬ (s.pending.length = 0 ∧ s.streamState = .processing))) := by
   have hI := hP.inv
   have hw : s.inputPos + io.availIn < two64 := by rw [hP.sum]; exact hP.nowrap
   have hnz := hP.nonprocZero
@@ -118,7 +119,7 @@ theorem slowStep_steps {o : Oracle} {op : Nat} {c0 : SState} {n total : Nat} {s 
           by_cases hh : s.streamState = .processing
           · exact hh
           · exact absurd (hnz hh) hc.2
-        exact Or.inl ⟨rfl, _, Step.copy hI hw hop hnf hst hP.rm hc (by simpa [copyN] using hn) hcp⟩
+        exact Or.inl ⟨rfl, _, (fun hh => by cases hh), Step.copy hI hw hop hnf hst hP.rm hc (by simpa [copyN] using hn) hcp⟩
       · simp at h
       · simp at h
   · rename_i hc
@@ -136,10 +137,10 @@ theorem slowStep_steps {o : Oracle} {op : Nat} {c0 : SState} {n total : Nat} {s 
         · rename_i s2 hpad
           simp only [Out.ok.injEq, Prod.mk.injEq] at hp
           obtain ⟨rfl, rfl, _⟩ := hp
-          exact Or.inl ⟨rfl, _, Step.pad hI hpd (hnz (by rw [hpd.1]; simp)) hpad⟩
+          exact Or.inl ⟨rfl, _, (fun hh => by cases hh), Step.pad hI hpd (hnz (by rw [hpd.1]; simp)) hpad⟩
         · simp at hp
         · simp at hp
-      · exact Or.inl ⟨rfl, _, Step.push hI hpd hp⟩
+      · exact Or.inl ⟨rfl, _, (fun hh => by cases hh), Step.push hI hpd hp⟩
     · rename_i s1 io1 hp
       obtain ⟨e1, e2, p1, p2⟩ := push_false hp
       have e1' := e1.symm; have e2' := e2.symm
@@ -157,14 +158,16 @@ theorem slowStep_steps {o : Oracle} {op : Nat} {c0 : SState} {n total : Nat} {s 
           subst hres
           simp only [Bool.not_true, Bool.false_eq_true, ↓reduceIte, Out.ok.injEq, Prod.mk.injEq] at h
           obtain ⟨rfl, rfl, rfl⟩ := h
-          exact Or.inl ⟨rfl, _, Step.encSlow hI hop hnf hP.rm hc p1 (List.eq_nil_of_length_eq_zero hcond.1) hcond.2.1 hcond.2.2 henc⟩
-      · simp only [Out.ok.injEq, Prod.mk.injEq] at h
+          exact Or.inl ⟨rfl, _, (fun hh => by unfold encEv at hh; cases hh), Step.encSlow hI hop hnf hP.rm hc p1 (List.eq_nil_of_length_eq_zero hcond.1) hcond.2.1 hcond.2.2 henc⟩
+      · rename_i hne
+        simp only [Out.ok.injEq, Prod.mk.injEq] at h
         obtain ⟨rfl, rfl, rfl⟩ := h
-        exact Or.inr ⟨rfl, rfl, rfl, Step.cfc hI hop hP.rm p1 hnz⟩
+        exact Or.inr ⟨rfl, rfl, rfl, Step.cfc hI hop hP.rm p1 hnz, fun h0 hh => hne ⟨hh.1, hh.2, Or.inr h0⟩⟩
 
 theorem slowLoop_steps {o : Oracle} {op : Nat} {c0 : SState} {n total : Nat} (hop : op ≤ 2) :
     ∀ fuel s io s' io' r, ¬ fastMode s.params → SlowInv op c0 n total s io → slowLoop o op fuel s io = .ok (s', io', r) →
-      ∃ evs, Steps o op (s, io) evs (s', io') := by
+      ∃ evs s1, Steps o op (s, io) evs (s1, io') ∧ (∀ e ∈ evs, e ≠ .tau 0) ∧ Step o op (s1, io') (.tau 0) (s', io')
+        ∧ s' = checkFlushComplete s1 ∧ (op ≠ 0 → ¬ (s1.pending.length = 0 ∧ s1.streamState = .processing)) := by
   intro fuel
   induction fuel with
   | zero => intro s io s' io' r _ _ h; simp [slowLoop] at h
@@ -177,24 +180,29 @@ theorem slowLoop_steps {o : Oracle} {op : Nat} {c0 : SState} {n total : Nat} (ho
     · rename_i s1 io1 hs
       exact absurd rfl (slowInv_step hP hs).1
     · rename_i s1 io1 hs
-      rcases slowStep_steps hop hnf hP hs with ⟨_, e, he⟩ | ⟨hc, _⟩
+      rcases slowStep_steps hop hnf hP hs with ⟨_, e, hne, he⟩ | ⟨hc, _⟩
       · have hnf1 : ¬ fastMode s1.params := fun hh => hnf ((fastMode_of_mode (step_mode he hP.inv.init)).mp hh)
-        obtain ⟨evs, hevs⟩ := ih _ _ _ _ _ hnf1 (slowInv_step hP hs).2 h
-        exact ⟨e :: evs, .cons he hevs⟩
+        obtain ⟨evs, sx, hevs, hnt, hlast, hx1, hx2⟩ := ih _ _ _ _ _ hnf1 (slowInv_step hP hs).2 h
+        refine ⟨e :: evs, sx, .cons he hevs, ?_, hlast, hx1, hx2⟩
+        intro e' he'
+        rcases List.mem_cons.mp he' with h1 | h1
+        · rw [h1]; exact hne
+        · exact hnt e' h1
       · cases hc
     · rename_i s1 io1 hs
       simp only [Out.ok.injEq, Prod.mk.injEq] at h
       obtain ⟨rfl, rfl, rfl⟩ := h
-      rcases slowStep_steps hop hnf hP hs with ⟨hc, _⟩ | ⟨_, rfl, rfl, he⟩
+      rcases slowStep_steps hop hnf hP hs with ⟨hc, _⟩ | ⟨_, rfl, rfl, he, hx⟩
       · cases hc
-      · exact ⟨[.tau 0], .one he⟩
+      · exact ⟨[], _, .nil _, (fun _ hh => by cases hh), he, rfl, hx⟩
 
 /-! ### the quality 0/1 loop -/
 
 set_option maxRecDepth 4000 in
 theorem fastStep_steps {o : Oracle} {op : Nat} {c0 : SState} {n : Nat} {s s' : St} {io io' : Io} {b : Bool}
     (hop : op ≤ 2) (hP : FastInv op c0 n s io) (h : fastStep o op s io = .ok (s', io', b)) :
-    (b = true ∧ ∃ e, Step o op (s, io) e (s', io')) ∨ (b = false ∧ s' = s ∧ io' = io ∧ ¬ PadDue s) := by
+    (b = true ∧ ∃ e, e ≠ .tau 0 ∧ Step o op (s, io) e (s', io')) ∨
+    (b = false ∧ s' = s ∧ io' = io ∧ ¬ PadDue s ∧ (op ≠ 0 → ¬ (s.pending.length = 0 ∧ s.streamState = .processing))) := by
   have hI := hP.inv
   have hnz := hP.nonprocZero
   unfold fastStep at h
@@ -211,10 +219,10 @@ theorem fastStep_steps {o : Oracle} {op : Nat} {c0 : SState} {n : Nat} {s s' : S
       · rename_i s2 hpad
         simp only [Out.ok.injEq, Prod.mk.injEq] at hp
         obtain ⟨rfl, rfl, _⟩ := hp
-        exact Or.inl ⟨rfl, _, Step.pad hI hpd (hnz (by rw [hpd.1]; simp)) hpad⟩
+        exact Or.inl ⟨rfl, _, (fun hh => by cases hh), Step.pad hI hpd (hnz (by rw [hpd.1]; simp)) hpad⟩
       · simp at hp
       · simp at hp
-    · exact Or.inl ⟨rfl, _, Step.push hI hpd hp⟩
+    · exact Or.inl ⟨rfl, _, (fun hh => by cases hh), Step.push hI hpd hp⟩
   · rename_i s1 io1 hp
     obtain ⟨e1, e2, p1, p2⟩ := push_false hp
     have e1' := e1.symm; have e2' := e2.symm
@@ -229,7 +237,7 @@ theorem fastStep_steps {o : Oracle} {op : Nat} {c0 : SState} {n : Nat} {s s' : S
         obtain ⟨rfl, rfl, rfl⟩ := h
         have hff1 : io.availIn = min (2 ^ s.params.lgwin.toNat) io.availIn ∧ op = 1 := by simpa using hff.1
         have hz : io.availIn = 0 := by rw [hff1.1]; exact hff.2
-        exact Or.inl ⟨rfl, _, Step.fastFlush hI hP.fm hP.rm p1 hpend hcond.2.1 hff1.2 hz⟩
+        exact Or.inl ⟨rfl, _, (fun hh => by cases hh), Step.fastFlush hI hP.fm hP.rm p1 hpend hcond.2.1 hff1.2 hz⟩
       · rename_i hnf
         split at h
         · simp at h
@@ -247,16 +255,18 @@ theorem fastStep_steps {o : Oracle} {op : Nat} {c0 : SState} {n : Nat} {s s' : S
               have hcap' : ¬ fastCap (fastS1 s io) io (fastInplace s io) < 2 := hcap
               have hin' : ¬ fastBs s io > io.input.length := hin
               have hfit' : ¬ (s.lastBytesBits + (o s.nEnc (fastReq op s io)).bits.length) / 8 + 2 > fastCap (fastS1 s io) io (fastInplace s io) := hfit
-              refine Or.inl ⟨h3.symm, .fast s.nEnc (fastReq op s io), ?_⟩
+              refine Or.inl ⟨h3.symm, .fast s.nEnc (fastReq op s io), (fun hh => by cases hh), ?_⟩
               rw [e]
               exact Step.fastBlock hI hP.fm hop hP.rm p1 hpend hcond.2.1 hcond.2.2 hnf' hcap' hin' hfit'
-    · simp only [Out.ok.injEq, Prod.mk.injEq] at h
+    · rename_i hne
+      simp only [Out.ok.injEq, Prod.mk.injEq] at h
       obtain ⟨rfl, rfl, rfl⟩ := h
-      exact Or.inr ⟨rfl, rfl, rfl, p1⟩
+      exact Or.inr ⟨rfl, rfl, rfl, p1, fun h0 hh => hne ⟨hh.1, hh.2, Or.inr h0⟩⟩
 
 theorem fastLoop_steps {o : Oracle} {op : Nat} {c0 : SState} {n : Nat} (hop : op ≤ 2) :
     ∀ fuel s io s' io', FastInv op c0 n s io → fastLoop o op fuel s io = .ok (s', io') →
-      FastInv op c0 n s' io' ∧ ¬ PadDue s' ∧ ∃ evs, Steps o op (s, io) evs (s', io') := by
+      FastInv op c0 n s' io' ∧ ¬ PadDue s' ∧ (op ≠ 0 → ¬ (s'.pending.length = 0 ∧ s'.streamState = .processing))
+        ∧ ∃ evs, Steps o op (s, io) evs (s', io') ∧ (∀ e ∈ evs, e ≠ .tau 0) := by
   intro fuel
   induction fuel with
   | zero => intro s io s' io' _ h; simp [fastLoop] at h
@@ -267,16 +277,20 @@ theorem fastLoop_steps {o : Oracle} {op : Nat} {c0 : SState} {n : Nat} (hop : op
     · simp at h
     · simp at h
     · rename_i s1 io1 hs
-      rcases fastStep_steps hop hP hs with ⟨_, e, he⟩ | ⟨hc, _⟩
-      · obtain ⟨hP', hnp, evs, hevs⟩ := ih _ _ _ _ (fastInv_step hP hs) h
-        exact ⟨hP', hnp, e :: evs, .cons he hevs⟩
+      rcases fastStep_steps hop hP hs with ⟨_, e, hne, he⟩ | ⟨hc, _⟩
+      · obtain ⟨hP', hnp, hx, evs, hevs, hnt⟩ := ih _ _ _ _ (fastInv_step hP hs) h
+        refine ⟨hP', hnp, hx, e :: evs, .cons he hevs, ?_⟩
+        intro e' he'
+        rcases List.mem_cons.mp he' with h1 | h1
+        · rw [h1]; exact hne
+        · exact hnt e' h1
       · cases hc
     · rename_i s1 io1 hs
       simp only [Out.ok.injEq, Prod.mk.injEq] at h
       obtain ⟨rfl, rfl⟩ := h
-      rcases fastStep_steps hop hP hs with ⟨hc, _⟩ | ⟨_, rfl, rfl, hnp⟩
+      rcases fastStep_steps hop hP hs with ⟨hc, _⟩ | ⟨_, rfl, rfl, hnp, hx⟩
       · cases hc
-      · exact ⟨hP, hnp, [], .nil _⟩
+      · exact ⟨hP, hnp, hx, [], .nil _, (fun _ hh => by cases hh)⟩
 
 /-! ### the metadata loop -/
 
